@@ -174,6 +174,7 @@ type genv struct {
 
 	rejected []hs.Blob // a few rejected (ref, bytes) with supported hashes, for the closing battery
 	nrun     int
+	fdLeaky  bool
 	calls    int64 // calls into perkeep code
 	added    int64 // accepted uploads that added a blob (new store states)
 }
@@ -207,6 +208,7 @@ func newGenv(specName string) (*genv, error) {
 		return nil, fmt.Errorf("build %s: %w", spec.Name, err)
 	}
 	g := &genv{spec: spec, kind: kindOf(spec.Name), e: e, sto: sto, ref: hs.NewRefMap()}
+	g.fdLeaky = g.kind == "proxycache" || strings.Contains(spec.Name, "localdisk")
 	if spec.Prepop != nil {
 		spec.Prepop(e, g.ref, nil)
 	}
